@@ -13,15 +13,15 @@ package main
 func init() {
 	const keyset = "pkg/oidc/keyset.go"
 	ren := map[string]string{
-		"algToKeyType()":                       "algToKeyType now",
-		"jose.EdDSA":                           "Const.EdDSA",
-		"oidc.GetKeyIDAndAlg()":                "GetKeyIDAndAlg now",
-		"oidc.FindMatchingKey()":               "FindMatchingKey now",
-		"oidc.KeyUseSignature":                 "Const.KeyUseSignature",
-		"jws.Verify()":                         "Hand.jwsVerify jws",
-		"o.Storage.KeySet()":                   "Hand.c02StorageKeySet o",
-		"jsonWebKeySet()":                      "Hand.c02JSONWebKeySet",
-		"k.storage.GetKeyByIDAndClientID()":    "Hand.c02GetKeyByIDAndClientID (k).storage",
+		"algToKeyType()":                    "algToKeyType now",
+		"jose.EdDSA":                        "Const.EdDSA",
+		"oidc.GetKeyIDAndAlg()":             "GetKeyIDAndAlg now",
+		"oidc.FindMatchingKey()":            "FindMatchingKey now",
+		"oidc.KeyUseSignature":              "Const.KeyUseSignature",
+		"jws.Verify()":                      "Hand.jwsVerify jws",
+		"o.Storage.KeySet()":                "Hand.c02StorageKeySet o",
+		"jsonWebKeySet()":                   "Hand.c02JSONWebKeySet",
+		"k.storage.GetKeyByIDAndClientID()": "Hand.c02GetKeyByIDAndClientID (k).storage",
 	}
 	pairRen := map[string]string{
 		"r.keysFromCache()":         "cachedKeys",
